@@ -31,6 +31,16 @@ def balance_chain(rng, coin, mode, nblocks=8):
     cb = gen.ChainBuilder(rng, coin)
     keys = [rbytes(rng, 32) for _ in range(rng.randint(2, 6))]
     scripts = [s for k in keys for s in same_key_scripts(rng, coin, k)]
+    if not COINS[coin].bitcoin_rules:
+        # fork coins type by template with no-ops ignored and any non-empty push in a data slot: scripts far beyond 10,000 bytes (the
+        # consensus limit for *spending*) still carry an address and own their outputs like any other
+        import struct as _st
+        from .. import script_ref as _sr
+        h = rbytes(rng, 20)
+        big = [b"\x76\xa9\x14" + h + b"\x88\xac" + b"\x61" * n for n in (9975, 9976, 12000)]
+        big.append(b"\xa9\x4d" + _st.pack("<H", 10100) + rbytes(rng, 10100) + b"\x87")
+        big.append(b"\x4d" + _st.pack("<H", 10050) + rbytes(rng, 10050) + b"\xac")
+        scripts += [s for s in big if _sr.classify(s, COINS[coin]).address]
     if mode == "bigsum":
         # address A accumulates more than 2^63 (but less than 2^64), address B sums above 2^32
         a_vals = [1 << 63, 1 << 61, (1 << 60) - rng.randint(1, 1000)]
